@@ -567,7 +567,6 @@ impl Part for SamplerFlush {
                     ),
                 )
             })
-            .prop_filter("a run with no draws at all is not a run", |(_, _, _, (t, d, ..), _, _)| t + d > 0)
             .prop_map(|(preset, dens, center, (num_tune, num_draws, seed, num_chains), (is_async, chunk, delay_seed), script)| {
                 let mut spec = ChainSpec::defaults(preset);
                 spec.num_tune = num_tune;
